@@ -32,6 +32,7 @@ def parseSched (s : String) : Option (List WrRes) :=
     | "I" => some WrRes.eintr
     | "P" => some WrRes.epipe
     | "R" => some WrRes.econnreset
+    | "N" => some WrRes.enotconn
     | "V" => some WrRes.einval
     | "X" => some WrRes.eio
     | _ => t.toNat?.map WrRes.ok
@@ -93,7 +94,8 @@ def prepLine (status meth ver fin ka flags hdrs qbody : String) (pieces : List S
       { status := st, meth := m, ver11 := v ≠ 0, finished := f ≠ 0, keepAlive := k ≠ 0,
         hasHandler := bit 1, errorIntercept := bit 2, kaReqExceeded := bit 4, kaIdleZero := bit 8,
         reqBodyUnread := bit 16, serverTag := if bit 32 then some (ofString "lighttpd/ltv") else none,
-        closeNormally := bit 64, hdrs := hs, queued := qb, pieces := ps }
+        closeNormally := bit 64, ehSaved := if bit 128 then 65535 else if bit 256 then 404 else 0,
+        hdrs := hs, queued := qb, pieces := ps }
     let o := respond d fixedDate
     "ka=" ++ b01 o.keepAlive ++ " fin=" ++ b01 o.finished ++ " ch=" ++ b01 o.sendChunked ++
       " hlen=" ++ toString o.head.length ++ " wire=" ++ toHex (o.head ++ o.body)
@@ -152,6 +154,12 @@ def h1respLine : List String → String
       toString (if s ≥ 300 then s else 0) ++ " " ++ toHex (redirectLocation pfx p q)
     | _, _, _, _, _, _ => "bad-op"
   | ["clen", n] => clenLine n
+  | ["cshort", _api, seed, flen, claimed] =>
+    match seed.toNat?, flen.toNat?, claimed.toNat? with
+    | some sd, some fl, some cl =>
+      let r := chunkAppendWholeFile true (patBytes sd fl) cl
+      toString r.2 ++ " " ++ toHex r.1
+    | _, _, _ => "bad-op"
   | ["s1xx", status, hdrs] =>
     match status.toNat?, parseHdrs hdrs with
     | some st, some hs => "1 " ++ toHex (send1xx st hs)
